@@ -36,6 +36,11 @@ class CmsDriver:
         else:
             self.obj = StreamThreshold(threshold=case["threshold"], **kw)
         self.w, self.d = self.obj.width, self.obj.depth
+        self.qt = "min"
+        if P.get("vary_query") and self.cls == "st" and case.get("qt") in ("mean", "mean-min") and (case["qt"] == "mean" or self.w >= 2):
+            # the threshold table is defined by the RETURNED estimates, whatever the query type
+            self.qt = case["qt"]
+            self.obj.query_type = self.qt
         self.true = Counter()
         self.ever = set()  # keys ever added (for the exactness precondition)
         self.last = {}  # most recent value returned by add/remove per key (since clear)
@@ -212,7 +217,7 @@ class CmsDriver:
         ctx.check(name, got == want, lambda: f"{what}: meets_threshold {got} != keys whose latest estimate >= {t}: {want}")
         ctx.check(name, o.threshold == t, "threshold changed")
         for k in self.pool:
-            if self.true[k] >= t:
+            if self.true[k] >= t and self.qt == "min":
                 ctx.check(name, k in got, lambda: f"{what}: {k!r} has true count {self.true[k]} >= {t} but is not listed")
 
     def run(self):
@@ -227,6 +232,8 @@ class CmsDriver:
         for f in self.feats:
             self.ctx.feat(f)
         self.ctx.feat("cls_" + self.cls)
+        if self.qt != "min":
+            self.ctx.feat("st_query_" + self.qt)
         self.ctx.feat("w=%s" % (self.w if self.w < 4 else "4-8" if self.w < 9 else "9+"))
         self.ctx.feat("d=%d" % min(self.d, 6))
 
@@ -245,6 +252,7 @@ def case_strategy(tier, classes=("cms",), allow_clear=False, max_ops=40, small=F
     def case(draw):
         cls = draw(st.sampled_from(classes))
         c = {"cls": cls, "hash": draw(gen.hash_name_st()), "pool": draw(gen.pool_st(2, 9 if small else 8)),
+             "qt": draw(st.sampled_from(["min", "min", "mean", "mean-min"])),
              "hitters": draw(st.integers(1, 4)), "threshold": draw(st.integers(1, 8))}
         if not small and draw(st.integers(0, 7)) == 0:
             c["conf"] = draw(st.sampled_from([0.5, 0.75, 0.9, 0.99]))
